@@ -125,6 +125,26 @@ pub fn check(c: &Case) -> CheckResult {
             }
         }
         o.class("shape-coverage:probe-render");
+        // ... and its own stroker: for undashed strokes of polylines the region model of C04 says, independently,
+        // which pixels lie outside the stroke by more than the margin
+        if let Op::Stroke(p, _, st, _) = &c.draw {
+            if st.dash.is_empty() && !p.has_curves() && st.width.0 > 0.0 && xf_det(&c.xf) != 0.0 {
+                let polys = crate::stroke_model::polylines(p, 0.01);
+                if let Some(v) = crate::stroke_model::verdicts(&polys, st.width.0 as f64, st.cap, st.join, st.miter.0 as f64, &c.xf, w, h, 0.5) {
+                    let mut extra = 0;
+                    for i in 0..n {
+                        if v[i] == 0 {
+                            if !z[i] {
+                                extra += 1;
+                            }
+                            z[i] = true;
+                        }
+                    }
+                    o.class_if(extra > 0, "zero-coverage-from-stroke-region-only");
+                    o.class("shape-coverage:stroke-region-model");
+                }
+            }
+        }
         // the probe trusts the library's own rasterisation of curves; the f64 outline does not
         if let Op::Fill(p, ..) = &c.draw {
             let mut extra = 0;
